@@ -383,7 +383,10 @@ func readInnerChunks(tx *bolt.Tx, fsID string, off int64) (chunks []chunkEntryWi
 	if err != nil {
 		return nil, fmt.Errorf("metadata bucket of %q not found: %w", fsID, err)
 	}
-	if err := ob.ForEach(func(_, v []byte) error {
+	if err := ob.ForEach(func(k, v []byte) error {
+		// Each key of this bucket is the innerOffset of one chunk of the node it maps to. A node that has several
+		// chunks in this stream appears once per chunk, so pick only the chunk this key stands for.
+		innerOffset, _ := binary.Varint(k)
 		nodeid := decodeID(v)
 		b, err := getNodeBucketByID(nodes, nodeid)
 		if err != nil {
@@ -396,7 +399,7 @@ func readInnerChunks(tx *bolt.Tx, fsID string, off int64) (chunks []chunkEntryWi
 				return fmt.Errorf("failed to get chunks: %w", err)
 			}
 			for _, e := range nodeChunks {
-				if e.offset == off {
+				if e.offset == off && e.innerOffset == innerOffset {
 					chunks = append(chunks, chunkEntryWithID{e, nodeid})
 				}
 			}
